@@ -288,9 +288,42 @@ def run(rep, prog, tier):
         raise AnalysisError('only %d calls / %d bindings analysed (expected >= 350 / 1000)' % (n_calls, n_bind))
     check_wrappers(rep, prog, fns, all_pn)
     check_siblings(rep, prog, fns)
+    check_zero_duration(rep, prog)
     rep.floor("R-ROLE", 1000)
     rep.floor('R-IDX', 300)
     rep.floor('R-DIM', 80)
+
+
+def check_zero_duration(rep, prog):
+    """nesting at T = 0 rests on this: an integration of zero duration returns the density before any parameter function is
+    evaluated (size functions such as nu0*(nuF/nu0)**(t/T) are undefined at T = 0), on the constant and on the time-dependent path"""
+    im = prog.mod('dadi.Integration')
+    for q in ('one_pop', 'two_pops', 'three_pops', 'four_pops', 'five_pops'):
+        fn = prog.func('dadi.Integration', q)
+        body = fn.body
+        guard_i = None
+        for i, st in enumerate(body):
+            if isinstance(st, ast.If):
+                node = st
+                while isinstance(node, ast.If):
+                    t = ast.unparse(node.test).replace(' ', '')
+                    if t in ('T-initial_t==0', 'T==initial_t', 'initial_t==T', '0==T-initial_t') and any(isinstance(x, ast.Return) for x in node.body):
+                        guard_i = i
+                        break
+                    node = node.orelse[0] if len(node.orelse) == 1 and isinstance(node.orelse[0], ast.If) else None
+                if guard_i is not None:
+                    break
+        first_eval = None
+        for i, st in enumerate(body):
+            txt = ast.unparse(st)
+            if isinstance(st, (ast.While, ast.For)) or 'ensure_1arg_func' in txt or '_const_params(' in txt or '_temporal_params(' in txt:
+                first_eval = i
+                break
+        ok = guard_i is not None and (first_eval is None or guard_i < first_eval)
+        rep.ob('R-DOM', 'Integration.%s zero duration' % q, ok,
+               ('`T - initial_t == 0: return phi` is statement %d of the body, before the first evaluation of parameters (statement %s)' % (guard_i, first_eval)) if guard_i is not None
+               else 'no unconditional zero-duration return before the parameters are used', im.rel, fn.lineno,
+               what='a zero-length integration returns the density on every path before any parameter (function) is evaluated')
 
 
 def check_wrappers(rep, prog, fns, all_pn):
